@@ -7,6 +7,8 @@ CFG of the function contains the statement expressions of the array macros) ever
 dominated by the false edges of tests mpq_equal (X, mpq_ILL_MAXDOUBLE) and mpq_equal (X, mpq_ILL_MINDOUBLE) on the same X.
 Discharged structurally: a value fetched with the parameter getter for a constant whose case in the getter converts a `double` field
 (the time limit) cannot hold the rational sentinel."""
+import re
+
 from ..core import walk, strip, is_var, callee, const_of, show, short_loc, dominators, norm_callee
 from ..result import RuleResult, Violation
 
@@ -122,4 +124,90 @@ def run(prog, rule="R-INFMAP", floor=12):
                                                     "infinity" % (show(c)[:60], X, X, X, ", ".join(sorted(have)) or "none")))
     res.counts["conversion_sites"] = nsite
     res.floor("rational conversions in the copy routines", nsite, floor)
+    return res
+
+
+def run_kept(prog, rule="R-SENTKEPT", floor=8):
+    """a special case is not undone by the general case.  The conversion macros of exact.h (expanded into the functions of exact.c: the
+    CFG contains their statement expressions) store the target type's infinity sentinel into an element when the source holds the source
+    type's sentinel, and convert the value otherwise.  From every store of a sentinel (a call whose second argument, or an assignment
+    whose right-hand side, is one of the *_ILL_MAXDOUBLE / *_ILL_MINDOUBLE globals) no path - cut where a variable of the destination
+    expression changes, i.e. at the next loop iteration - reaches another store into the same destination expression: the three sister
+    macros end in `else <convert>`; QScopy_array_mpf_mpq had lost the `else`, so mpf infinity came out as a finite rational."""
+    res = RuleResult(rule, "a store of an infinity sentinel into a location is not followed, within the same iteration, by another store into that location")
+    n = 0
+    for f in sorted(prog.funcs.values(), key=lambda x: x.key):
+        if f.live is None or not f.unit.endswith("qsopt_ex/exact.c"):
+            continue
+        stores = []          # (bid, idx, dest text, dest tree, loc, is sentinel)
+        for bid in f.live:
+            for i, e in enumerate(f.blocks[bid]["e"]):
+                dest = src = None
+                if e[0] == "C" and len(e[1][3]) >= 2 and any(k in (callee(e[1]) or "") for k in ("_set", "EGlpNumSet", "EGlpNumCopy")):
+                    dest, src = e[1][3][0], e[1][3][1]
+                elif e[0] == "A" and e[1][1] == "=":
+                    dest, src = e[1][2], e[1][3]
+                if dest is None:
+                    continue
+                d0 = strip(dest)
+                if not (isinstance(d0, list) and d0 and d0[0] == "i"):
+                    continue
+                s0 = strip(src)
+                sent = is_var(s0) and s0[1] == "g" and s0[2].endswith(("ILL_MAXDOUBLE", "ILL_MINDOUBLE"))
+                stores.append((bid, i, show(d0), d0, e[2], sent))
+        if not any(s[5] for s in stores):
+            continue
+        succ = {bid: [s for s in prog.live_succs(f, f.blocks[bid]) if s is not None] for bid in f.live}
+
+        def changes(bid, names, start=0):
+            blk = f.blocks[bid]
+            for e in blk["e"][start:]:
+                if e[0] == "U" and is_var(strip(e[1][2])) and strip(e[1][2])[2] in names:
+                    return True
+                if e[0] == "A" and is_var(strip(e[1][2])) and strip(e[1][2])[2] in names:
+                    return True
+                if e[0] == "D" and any(nm in names for nm, _ in e[1]):
+                    return True
+            c = blk.get("c")
+            if c is not None:
+                for nd in walk(c):
+                    if isinstance(nd, list) and nd and nd[0] in ("u", "a") and len(nd) > 2 and str(nd[1]) in ("++", "--", "++post", "--post", "=", "+=", "-=") \
+                            and is_var(strip(nd[2])) and strip(nd[2])[2] in names:
+                        return True
+            return False
+
+        for (bid, i, dtxt, d0, loc, sent) in stores:
+            if not sent:
+                continue
+            n += 1
+            res.obligations += 1
+            res.nontrivial += 1
+            names = {nd[2] for nd in walk(d0) if is_var(nd)}
+            hit = None
+            seen = set()
+            work = [(bid, i + 1)]
+            while work and hit is None:
+                b0, st = work.pop()
+                if (b0, st) in seen:
+                    continue
+                seen.add((b0, st))
+                for (b2, i2, t2, _d, loc2, _s) in stores:
+                    if b2 == b0 and i2 >= st and t2 == dtxt and not (b2 == bid and i2 == i):
+                        # the destination variables must not have changed before it inside this block
+                        blk = f.blocks[b0]
+                        if not any(e[0] in ("U", "A", "D") and ((e[0] == "D" and any(nm in names for nm, _ in e[1])) or
+                                                               (e[0] != "D" and is_var(strip(e[1][2])) and strip(e[1][2])[2] in names)) for e in blk["e"][st:i2]):
+                            hit = loc2
+                            break
+                if hit is None and not changes(b0, names, st):
+                    for s in succ.get(b0, ()):
+                        work.append((s, 0))
+            if hit:
+                res.violations.append(Violation(rule, "%s|sentinel stored into %s and overwritten" % (f.name, re.sub(r"@\d+", "", dtxt)), f.name, short_loc(loc),
+                                                "the infinity sentinel stored into %s is overwritten by the store at %s on a path of the same iteration: the special "
+                                                "case for infinite values is dead, the general conversion always runs" % (dtxt, short_loc(hit))))
+            else:
+                res.sample({"site": "%s %s: sentinel into %s" % (short_loc(loc), f.name, dtxt), "verdict": "kept until the next iteration"}, limit=8)
+    res.counts["sentinel_stores"] = n
+    res.floor("stores of an infinity sentinel into an array element in exact.c", n, floor)
     return res
